@@ -2,11 +2,13 @@ package world
 
 import (
 	"bytes"
+	"cosmossdk.io/collections"
 	"crypto/sha256"
 	"encoding/binary"
 	"encoding/hex"
 	"fmt"
 	"github.com/cosmos/cosmos-sdk/types/query"
+	dispatchertypes "github.com/noble-assets/orbiter/v2/types/component/dispatcher"
 	"math/big"
 	"regexp"
 	"sort"
@@ -150,12 +152,12 @@ func (q Query) Coq() string {
 type Op struct {
 	// InstOnly: run (and commit) this packet on the instrumented instance only
 	InstOnly bool
-	Kind string // recv msg deposit query
-	Pkt  Packet
-	Plan []bool // recv/msg: fault plan (nil: none)
-	Lie  int64
-	Msg  Msg
-	Q    Query
+	Kind     string // recv msg deposit query
+	Pkt      Packet
+	Plan     []bool // recv/msg: fault plan (nil: none)
+	Lie      int64
+	Msg      Msg
+	Q        Query
 	// deposit
 	To     sdk.AccAddress
 	Denom  string
@@ -301,27 +303,66 @@ func (st StateObs) Coq() string {
 		cq.List(ps), cq.List(cc), cq.List(as), st.Max, cq.List(am), cq.List(cs))
 }
 
+// ObserveState reads the orbiter's own store directly - prefix by prefix, with the SDK's collections key
+// codecs - and not through the module's getters or its genesis export, which are under test themselves.
 func (w *W) ObserveState(ctx sdk.Context) StateObs {
-	g := w.S.App.OrbiterKeeper.ExportGenesis(ctx)
 	var st StateObs
-	for _, p := range g.ForwarderGenesis.PausedProtocolIds {
-		st.Protos = append(st.Protos, int64(p))
+	key, ok := w.S.App.UnsafeFindStoreKey(core.ModuleName).(*storetypes.KVStoreKey)
+	if !ok || key == nil {
+		panic("orbiter store key not found")
 	}
-	for _, c := range g.ForwarderGenesis.PausedCrossChainIds {
-		st.CC = append(st.CC, [2]string{fmt.Sprint(int32(c.ProtocolId)), c.CounterpartyId})
+	store := ctx.KVStore(key)
+	cdc := w.S.App.OrbiterKeeper.Codec()
+	walk := func(prefix collections.Prefix, f func(k, v []byte)) {
+		p := prefix.Bytes()
+		it := storetypes.KVStorePrefixIterator(store, p)
+		defer it.Close()
+		for ; it.Valid(); it.Next() {
+			f(it.Key()[len(p):], it.Value())
+		}
 	}
-	for _, a := range g.ExecutorGenesis.PausedActionIds {
-		st.Actions = append(st.Actions, int64(a))
+	must := func(err error) {
+		if err != nil {
+			panic("orbiter store entry cannot be decoded: " + err.Error())
+		}
 	}
-	st.Max = int64(g.AdapterGenesis.Params.MaxPassthroughPayloadSize)
-	for _, e := range g.DispatcherGenesis.DispatchedAmounts {
-		st.Amounts = append(st.Amounts, [6]string{fmt.Sprint(int32(e.SourceId.ProtocolId)), e.SourceId.CounterpartyId,
-			e.DestinationId.ID(), e.Denom, e.AmountDispatched.Incoming.String(), e.AmountDispatched.Outgoing.String()})
-	}
-	for _, e := range g.DispatcherGenesis.DispatchedCounts {
-		st.Counts = append(st.Counts, [5]string{fmt.Sprint(int32(e.SourceId.ProtocolId)), e.SourceId.CounterpartyId,
-			fmt.Sprint(int32(e.DestinationId.ProtocolId)), e.DestinationId.CounterpartyId, fmt.Sprint(e.Count)})
-	}
+	walk(core.PausedProtocolsPrefix, func(k, _ []byte) {
+		_, id, err := collections.Int32Key.Decode(k)
+		must(err)
+		st.Protos = append(st.Protos, int64(id))
+	})
+	ccCodec := collections.PairKeyCodec(collections.Int32Key, collections.StringKey)
+	walk(core.PausedCrossChainsPrefix, func(k, _ []byte) {
+		_, pair, err := ccCodec.Decode(k)
+		must(err)
+		st.CC = append(st.CC, [2]string{fmt.Sprint(pair.K1()), pair.K2()})
+	})
+	walk(core.PausedActionsPrefix, func(k, _ []byte) {
+		_, id, err := collections.Int32Key.Decode(k)
+		must(err)
+		st.Actions = append(st.Actions, int64(id))
+	})
+	walk(core.AdapterParamsPrefix, func(_, v []byte) {
+		var p adaptertypes.Params
+		must(cdc.Unmarshal(v, &p))
+		st.Max = int64(p.MaxPassthroughPayloadSize)
+	})
+	amtCodec := collections.QuadKeyCodec(collections.Int32Key, collections.StringKey, collections.StringKey, collections.StringKey)
+	walk(core.DispatchedAmountsPrefix, func(k, v []byte) {
+		_, q, err := amtCodec.Decode(k)
+		must(err)
+		var a dispatchertypes.AmountDispatched
+		must(cdc.Unmarshal(v, &a))
+		st.Amounts = append(st.Amounts, [6]string{fmt.Sprint(q.K1()), q.K2(), q.K3(), q.K4(), intOrZero(a.Incoming).String(), intOrZero(a.Outgoing).String()})
+	})
+	cntCodec := collections.QuadKeyCodec(collections.Int32Key, collections.StringKey, collections.Int32Key, collections.StringKey)
+	walk(core.DispatchedCountsPrefix, func(k, v []byte) {
+		_, q, err := cntCodec.Decode(k)
+		must(err)
+		_, n, err := collections.Uint64Key.Decode(v)
+		must(err)
+		st.Counts = append(st.Counts, [5]string{fmt.Sprint(q.K1()), q.K2(), fmt.Sprint(q.K3()), q.K4(), fmt.Sprint(n)})
+	})
 	return st
 }
 
@@ -768,6 +809,28 @@ func (w *W) query(ctx sdk.Context, q Query) (v cq.V, failed bool) {
 				break
 			}
 			key = r.Pagination.NextKey
+		}
+		// ... and backwards, two per page: the same entries in the opposite order
+		var back []string
+		key = nil
+		for page := 0; page < 200; page++ {
+			req := &forwardertypes.QueryPausedCrossChainsRequest{ProtocolId: q.ID, Pagination: &query.PageRequest{Key: key, Limit: 2, Reverse: true}}
+			r, err := fq.PausedCrossChains(ctx, req)
+			if err != nil {
+				return cq.VL(), true
+			}
+			back = append(back, r.CounterpartyIds...)
+			if r.Pagination == nil || len(r.Pagination.NextKey) == 0 {
+				break
+			}
+			key = r.Pagination.NextKey
+		}
+		same := len(back) == len(all)
+		for i := 0; same && i < len(all); i++ {
+			same = back[len(back)-1-i] == all[i]
+		}
+		if !same {
+			return cq.VStrs(append(append([]string{}, all...), fmt.Sprintf("<the reverse walk visits %q>", back))), false
 		}
 		return cq.VStrs(all), false
 	case "IsActionPaused":
